@@ -484,10 +484,11 @@ def _(p):
     rows = ["x", "y", "z", "y", "x", "z", None]
     df = pandas.DataFrame({"A": pandas.Categorical(rows, categories=["x", "y", "z"]), "a": numpy.array(p["a"], dtype=float)})
     formula = p["formula"]
-    mm = model_matrix(formula, df, output="numpy")
+    out = p.get("output", "numpy")
+    mm = model_matrix(formula, df, output=out)
     labels = list(mm.model_spec.column_names)
     kept = [i for i, r in enumerate(rows) if r is not None]
-    cells = numpy.asarray(mm, dtype=float).reshape((-1, len(labels)))
+    cells = numpy.asarray(mm.todense() if out == "sparse" else mm, dtype=float).reshape((-1, len(labels)))
     if cells.shape[0] != len(kept):
         return f"null-rows-kept: {cells.shape[0]} rows"
     reduced = formula.startswith("1 + C(") or formula.startswith("1 + a + a:")
@@ -501,7 +502,7 @@ def _(p):
         for c, j in enumerate(cat_cols):
             w = (want[li, c] if li is not None else 0.0) * (p["a"][i] if with_a else 1.0)
             if abs(cells[r, j] - w) > 1e-7 * (1 + abs(w)):
-                return f"encoding-mismatch: {formula!r} row {i} (level {rows[i]!r}) column {labels[j]!r} = {cells[r, j]}, indicator x coding gives {w}"
+                return f"encoding-mismatch: {formula!r}{'' if out == 'numpy' else ' (output=' + out + ')'} row {i} (level {rows[i]!r}) column {labels[j]!r} = {cells[r, j]}, indicator x coding gives {w}"
     return None
 
 
